@@ -8,7 +8,7 @@ from fractions import Fraction
 from engine import term as T, agg, build, vg, ordd, poly as P, polycheck as PC
 from engine.agg import ELEM, TU
 from engine.report import HOLDS, VIOLATED, UNDECIDED
-from .common import Analysed, fn_where
+from .common import Analysed, fn_where, narrowing
 
 HDR = agg.HEADER + '#include <ImathLine.h>\n#include <ImathLineAlgo.h>\n#include <ImathPlane.h>\n#include <ImathSphere.h>\n#include <ImathVecAlgo.h>\n#include <ImathBox.h>\n'
 ONE = P.pconst(1)
@@ -243,7 +243,26 @@ def main(rep, ws, tier):
                 n += 1
                 e = foot_on_first(g, Rr)
                 if e: return e, None
-            return (None, 'foot of the common perpendicular on this line (%d arithmetic case(s)); the nearly-parallel guard returns pos' % n) if n else ('no arithmetic exit', None)
+            if not n: return 'no arithmetic exit', None
+            # exactly parallel and anti-parallel lines (d2 = +-d1, unit): 1 - (d1.d2)^2 and the numerator are identically zero;
+            # the result must come from the guarded exit (a point of this line), not from the quotient 0/0
+            npar = 0
+            for sgn in (1, -1):
+                def par(cx):
+                    for i in range(3):
+                        cx.lin[cx.key(agg.slot_in('a2', 3 + i, t))] = P.pscale(cx.reduce(P.patom(cx.key(agg.slot_in('a1', 3 + i, t)))), sgn)
+                ctx0 = P.Ctx(); G(ctx0, t).unit('a1', 3); par(ctx0)
+                try:
+                    for asg, res in cases(outs, ctx0):
+                        ctx = P.Ctx(); g = G(ctx, t); g.unit('a1', 3); par(ctx); npar += 1
+                        Rr = [ctx.rat(x) for x in res]
+                        if not g.vzero(g.cross(g.sub(Rr, g.vec('a1')), g.vec('a1', 3))): return 'parallel lines (d2 = %sd1): the point returned is not on this line' % ('-' if sgn < 0 else ''), None
+                except P.NotPoly as e:
+                    if 'zero polynomial' in str(e):
+                        return 'parallel lines (d2 = %sd1): num and denom = (d1.d2)^2 - 1 are both identically zero and the path taken divides them: 0/0 = NaN instead of the guarded exit' % ('-' if sgn < 0 else ''), None
+                    raise
+            if npar == 0: return 'no path for parallel lines', None
+            return (None, 'foot of the common perpendicular on this line (%d arithmetic case(s)); the nearly-parallel guard returns pos, and exactly parallel / anti-parallel lines take it' % n)
         run('w_line_cpl', 'R15.line', line_cpl)
 
         def closest_points(S):
@@ -259,7 +278,27 @@ def main(rep, ws, tier):
                 if not g.vzero(g.cross(g.sub(q, p2), d2)): return 'point2 is not on line2', None
                 s = g.sub(p, q)
                 if not g.zero(g.dot(s, d1)) or not g.zero(g.dot(s, d2)): return 'the connecting segment is not perpendicular to both directions', None
-            return (None, 'both points on their lines, connecting segment perpendicular to both directions (%d case(s)); the division is guarded' % n) if n else ('no successful exit', None)
+            if not n: return 'no successful exit', None
+            # exactly parallel / anti-parallel unit directions: 1 - (d1.d2)^2 is identically zero - reported (false), never divided by
+            npar = 0
+            for sgn in (1, -1):
+                def par(cx):
+                    for i in range(3):
+                        cx.lin[cx.key(agg.slot_in('a2', 3 + i, t))] = P.pscale(cx.reduce(P.patom(cx.key(agg.slot_in('a1', 3 + i, t)))), sgn)
+                ctx0 = P.Ctx(); G(ctx0, t).unit('a1', 3); par(ctx0)
+                try:
+                    for asg, res in cases(outs, ctx0):
+                        npar += 1
+                        if not (res[0].op == 'const' and res[0].attr[1] == 0):
+                            ctx = P.Ctx(); g = G(ctx, t); g.unit('a1', 3); par(ctx)
+                            [ctx.rat(x) for x in res[1:7]]
+                            return 'parallel lines (d2 = %sd1) are not reported: the function returns true' % ('-' if sgn < 0 else ''), None
+                except P.NotPoly as e:
+                    if 'zero polynomial' in str(e):
+                        return 'parallel lines (d2 = %sd1): the path taken divides by 1 - (d1.d2)^2, which is identically zero' % ('-' if sgn < 0 else ''), None
+                    raise
+            if npar == 0: return 'no path for parallel lines', None
+            return (None, 'both points on their lines, connecting segment perpendicular to both directions (%d case(s)); the division is guarded and exactly parallel lines are reported' % n)
         run('w_closestPoints', 'R15.line', closest_points)
 
         def line_dl(S):
@@ -611,6 +650,7 @@ def main(rep, ws, tier):
                     if not c2.requal(c2.rat(bx2), want_x): return 'barycentric.x of a point v0 + a*(v1-v0) + b*(v2-v0) is not 1 - a - b', None
             return (None, 'hit point on the line and in the plane; barycentrics sum to 1%s (%d accepting case(s))' % (' and reproduce it', n)) if n else ('no accepting exit', None)
         run('w_tri', 'R15.tri', tri)
+    narrowing(rep, ws, [gen('d'), gen_planeM('d')], 'R15.prec')
     rep.floor('geometric primitive obligations', len(rep.obs), 22 * len(types))
     rep.assumptions += ['exact real arithmetic at a generic point (zero / parallel tests false unless identically zero)', '|dir| = 1 for Line3 (R15.set), |normal| = 1 for Plane3 (every set overload)']
     rep.undecided_clauses += ['triangle inside/outside exactness near edges', 'plane x matrix side preservation', 'rounding']
